@@ -13,7 +13,7 @@ use std::collections::HashMap;
 
 pub const ID: &str = "C12";
 
-pub const RULE: &str = "cases = (recursive grammar, input). (1) Generated grammars with 1..2 (mutually) recursive definitions, every reference guarded (a token is consumed between the start of a definition and any reference to it), of four body shapes (delimited self-reference, prefix chain, list, free) plus templates (paren nest, list nest, two mutually recursive definitions, recursion under choice / repetition / lookahead) on all strings over a 4-symbol alphabet up to length L and derived sentences nested to every depth 0..12 with edits: compared with the reference PEG evaluator (native recursion) on acceptance, output, consumed extents. (2) Unrolling, reference-free: the same grammar with every reference expanded to depth len(input)+1 and NO Recursive in it (guardedness bounds the needed depth) must give the identical output and error list. (3) Value independence: the parser built with recursive(), with Recursive::declare()/define(), and with a handle cloned BEFORE define whose declaring handle is then dropped; cloned, boxed, moved into Rc with the original dropped -- all must give the same results. (4) Depth: x | ( expr ), x | [ expr , .. ] and a Pratt prefix chain, recursive() and declare/define, in parse, check and to_slice (value-eliding) mode, balanced and truncated inputs, depths 10, 10^2, .. 10^5 (quick) and 3*10^5, 10^6 (thorough), each in a child process (address-space limit) on a thread with a deliberately SMALL 256 KiB native stack -- the library's stack guard makes nesting depth independent of the native stack, a recursion site that bypasses it overflows after a few thousand levels: the child must exit normally and report the right depth (resp. a reported error for truncated input). (5) define twice: histories over declare / define(g1) / define(g2) / clone / parse: the second define must panic naming the caller's location, and the parser keeps behaving as g1. NON-TRIVIAL = the reference recursed at least twice for that input, or entered the recursion and abandoned it by backtracking; distinct = distinct (sub-check, grammar, input).";
+pub const RULE: &str = "cases = (recursive grammar, input). (1) Generated grammars with 1..2 (mutually) recursive definitions, every reference guarded (a token is consumed between the start of a definition and any reference to it), of four body shapes (delimited self-reference, prefix chain, list, free) plus templates (paren nest, list nest, two mutually recursive definitions, recursion under choice / repetition / lookahead) on all strings over a 4-symbol alphabet up to length L and derived sentences nested to every depth 0..12 with edits: compared with the reference PEG evaluator (native recursion) on acceptance, output, consumed extents. (2) Unrolling, reference-free: the same grammar with every reference expanded to depth len(input)+1 and NO Recursive in it (guardedness bounds the needed depth) must give the identical output and error list. (3) Value independence: the parser built with recursive(), with Recursive::declare()/define(), and with a handle cloned BEFORE define whose declaring handle is then dropped; cloned, boxed, moved into Rc with the original dropped -- all must give the same results. (4) Depth: x | ( expr ), x | [ expr , .. ] and a Pratt prefix chain, recursive() and declare/define, in parse, check and to_slice (value-eliding) mode, balanced and truncated inputs, depths 10, 10^2, .. 10^5 (quick) and 3*10^5, 10^6 (thorough), each in a child process (address-space limit) on a thread with a deliberately SMALL 256 KiB native stack -- the library's stack guard makes nesting depth independent of the native stack, a recursion site that bypasses it overflows after a few thousand levels: the child must exit normally and report the right depth (resp. a reported error for truncated input). (5) define twice: histories over declare / define(g1) / define(g2) / clone / parse: the second define must panic naming the caller's location, and the parser keeps behaving as g1. Two depth-ladder shapes run a user callback with a 40 KiB stack frame at every level (depths 50, 2 000, 20 000). NON-TRIVIAL = the reference recursed at least twice for that input, or entered the recursion and abandoned it by backtracking; distinct = distinct (sub-check, grammar, input).";
 
 pub const ASSUMPTIONS: &[&str] = &[
     "reference PEG evaluator for part (1); part (2) needs no reference",
@@ -241,6 +241,24 @@ fn list_decl<'a>() -> impl Parser<'a, &'a str, usize, EC<'a>> + Clone {
     e.define(body);
     e
 }
+/// a user callback with a large stack frame (a 40 KiB scratch buffer): safe at every depth as long as the guard keeps its
+/// documented reserve below every recursion level, fatal once the reserve is smaller than what one level may use
+#[inline(never)]
+fn fat(d: usize) -> usize {
+    let mut buf = [0u8; 40 * 1024];
+    buf[d % buf.len()] = d as u8;
+    let b = std::hint::black_box(&mut buf);
+    d + 1 + (b[(d * 7 + 1) % b.len()] as usize) * 0
+}
+fn fat_func<'a>() -> impl Parser<'a, &'a str, usize, EC<'a>> + Clone {
+    recursive(|e| e.delimited_by(just('('), just(')')).map(fat).or(just('x').to(0usize)))
+}
+fn fat_decl<'a>() -> impl Parser<'a, &'a str, usize, EC<'a>> + Clone {
+    let mut e: Recursive<Indirect<'a, 'a, &'a str, usize, EC<'a>>> = Recursive::declare();
+    let body = e.clone().delimited_by(just('('), just(')')).map(fat).or(just('x').to(0usize));
+    e.define(body);
+    e
+}
 fn pratt_prefix<'a>() -> impl Parser<'a, &'a str, usize, EC<'a>> + Clone {
     just('x').to(0usize).pratt((prefix(1, just('-'), |_, d: usize, _| d + 1),))
 }
@@ -262,7 +280,7 @@ pub fn depth_worker(shape: &str, style: &str, mode: &str, depth: usize, truncate
 
 fn depth_worker_inner(shape: &str, style: &str, mode: &str, depth: usize, truncated: bool) -> i32 {
     let input: String = match shape {
-        "paren" => format!("{}x{}", "(".repeat(depth), ")".repeat(if truncated { depth.saturating_sub(1) } else { depth })),
+        "paren" | "fat" => format!("{}x{}", "(".repeat(depth), ")".repeat(if truncated { depth.saturating_sub(1) } else { depth })),
         "list" => format!("{}x{}", "[".repeat(depth), "]".repeat(if truncated { depth.saturating_sub(1) } else { depth })),
         _ => format!("{}{}", "-".repeat(depth), if truncated { "" } else { "x" }),
     };
@@ -288,6 +306,8 @@ fn depth_worker_inner(shape: &str, style: &str, mode: &str, depth: usize, trunca
     let (out, nerr, check_ok) = match (shape, style) {
         ("paren", "func") => run(paren_func(), mode, &input),
         ("paren", _) => run(paren_decl(), mode, &input),
+        ("fat", "func") => run(fat_func(), mode, &input),
+        ("fat", _) => run(fat_decl(), mode, &input),
         ("list", "func") => run(list_func(), mode, &input),
         ("list", _) => run(list_decl(), mode, &input),
         _ => run(pratt_prefix(), mode, &input),
@@ -429,6 +449,12 @@ pub fn run(tier: Tier, seed: u64) -> i32 {
                     }
                 }
             }
+        }
+    }
+    // callbacks with a 40 KiB frame at every level (parse mode: the callback must run)
+    for style in ["func", "decl"] {
+        for d in [50usize, 2_000, 20_000] {
+            jobs.push(("fat".into(), style.into(), "parse".into(), d, false));
         }
     }
     ctx.with_local(|l| l.add("depth_ladder_runs", jobs.len() as u64));
